@@ -457,7 +457,8 @@ impl SuffixArrayBuilder {
         let alphabet_size = if self.config.optimize_small_alphabet {
             256 // Full byte alphabet
         } else {
-            text.iter().max().unwrap_or(&0).wrapping_add(1) as usize
+            // widen before adding 1: a text containing 0xFF needs 256 buckets, not 0
+            text.iter().max().map_or(1, |&m| m as usize + 1)
         };
 
         // Step 1: Classify suffixes as L-type or S-type
